@@ -260,9 +260,9 @@ func concRun(kind int, r *rng, n, m int, nCloses int) {
 
 func streamConc(seed uint64, thorough bool) {
 	r := newRng(seed ^ 0xC14C14)
-	runs, serialRuns := 24, 3
+	runs, serialRuns := 80, 6
 	if thorough {
-		runs, serialRuns = 240, 30
+		runs, serialRuns = 600, 40
 	}
 	for i := 0; i < runs; i++ {
 		kind := i % 2
